@@ -409,9 +409,32 @@ class Evaluator:
                             raise Shape("%s: branch on an uninterpreted value at %s" % (fname, t.where()))
                 elif t.op == "switch":
                     cv = self.norm(self.val(f, t.ops[0], e, args), al)
+                    w = _width(self._type_of(f, t.ops[0]))
+                    if isinstance(cv, LV):
+                        # fork: one path per case value, and the default with every case excluded
+                        rest_c, rest_al = c, al
+                        for cvv, d in t.d["cases"]:
+                            eq = self.norm(self.icmp("eq", cv, cvv & ((1 << w) - 1), w, t), rest_al)
+                            if isinstance(eq, int):
+                                if eq:
+                                    work.append((d, bidx, e, rest_c, s, rest_al))
+                                    rest_al = None
+                                    break
+                                continue
+                            cc = F_and(rest_c, eq.f)
+                            al2 = self.refine(rest_al, eq.f)
+                            if al2 is not None and not f_contradictory(cc):
+                                work.append((d, bidx, e, cc, s, al2))
+                            rest_c = F_and(rest_c, F_not(eq.f))
+                            rest_al = self.refine(rest_al, F_not(eq.f))
+                            if rest_al is None or f_contradictory(rest_c):
+                                rest_al = None
+                                break
+                        if rest_al is not None:
+                            work.append((t.d["default"], bidx, e, rest_c, s, rest_al))
+                        continue
                     if not isinstance(cv, int):
                         raise Shape("%s: switch on a value that depends on the index at %s" % (fname, t.where()))
-                    w = _width(self._type_of(f, t.ops[0]))
                     dest = t.d["default"]
                     for cvv, d in t.d["cases"]:
                         if (cvv & ((1 << w) - 1)) == cv:
